@@ -50,5 +50,5 @@ Fixpoint in_items (keepws : bool) (skip : nat) (ts : list xtok) : list item :=
 
 (* the output side: the character data of an emitted piece *)
 Definition out_item (p : piece) : item :=
-  match p with PText b => IR b | PCData _ content => IR content | PMarkup b => IM b end.
+  match p with PText b => IR b | PCData _ content => IR content | PCText _ content => IR content | PMarkup b => IM b end.
 Definition out_items (ps : list piece) : list item := map out_item ps.
